@@ -22,6 +22,13 @@ pub const Y_SET: u32 = 4;
 pub const Y_ALL: u32 = 7;
 
 thread_local! {
+    /// storage operations performed so far by ANY task (counted whether or
+    /// not the operation yields)
+    static ACCESSES: Cell<usize> = const { Cell::new(0) };
+    /// cancel the registered victim at the k-th storage operation (0 = off)
+    static TRIGGER_AT: Cell<usize> = const { Cell::new(0) };
+    static TRIGGERED: Cell<bool> = const { Cell::new(false) };
+    static VICTIM_WAKER: RefCell<Option<std::task::Waker>> = const { RefCell::new(None) };
     static MASK: Cell<u32> = const { Cell::new(0) };
     static SHADOW_ON: Cell<bool> = const { Cell::new(false) };
     static SHADOW: RefCell<BTreeMap<String, String>> =
@@ -40,7 +47,37 @@ pub fn shadow_dump() -> BTreeMap<String, String> {
     SHADOW.with(|s| s.borrow().clone())
 }
 
+pub fn access_count() -> usize { ACCESSES.with(Cell::get) }
+
+/// Restart counting; the victim registered by `set_victim_waker` is cancelled
+/// (woken, so that its wrapper can drop it) at the `k`-th storage operation
+/// from now on, whichever task performs it. `k == 0`: never.
+pub fn arm_cancellation(k: usize) {
+    ACCESSES.with(|c| c.set(0));
+    TRIGGER_AT.with(|c| c.set(k));
+    TRIGGERED.with(|c| c.set(false));
+    VICTIM_WAKER.with(|w| *w.borrow_mut() = None);
+}
+
+pub fn cancellation_triggered() -> bool { TRIGGERED.with(Cell::get) }
+
+pub fn set_victim_waker(w: std::task::Waker) { VICTIM_WAKER.with(|x| *x.borrow_mut() = Some(w)); }
+
+fn count_access() {
+    let n = ACCESSES.with(|c| {
+        c.set(c.get() + 1);
+        c.get()
+    });
+    if n == TRIGGER_AT.with(Cell::get) {
+        TRIGGERED.with(|c| c.set(true));
+        if let Some(w) = VICTIM_WAKER.with(|w| w.borrow_mut().take()) {
+            w.wake();
+        }
+    }
+}
+
 async fn maybe_yield(bit: u32) {
+    count_access();
     if MASK.with(Cell::get) & bit != 0 {
         qbice_verif_rt::tokio::task::yield_now().await;
     }
